@@ -10,6 +10,9 @@ def check(ctx):
     ctx.rule("C06.X4", "every handler between the user call and the API chains the very exception object (`from <bound name>`) and names the processed node; run translates the carrier as CallError(e.node) from e.__cause__")
     ctx.rule("C06.X5", "no handler between the engine call and the returned value can absorb the carrier")
     ctx.assume("which of several concurrent failures is recorded first is not decided (the property fixes it for one worker only)")
+    ctx.rule("C06.X6", "the engine evaluated as a whole on every small multigraph, failing set (Exception and BaseException), max_errors, scheduler and dequeue order: nothing downstream of a failed call is called, no call starts after the failure budget is exceeded, the carrier of the first failed node is raised, chained to that call's exception")
+    from .engineeval import rule_engine_evaluated
+    ctx.run(rule_engine_evaluated, "C06.X6", None, ("containment", "budget", "outcome", "cause"))
     r = E.discover(ctx.model)
     rr = R.discover(ctx.model, r)
     ctx.run(E.rule_enqueue_after_success, "C06.X1", r)
